@@ -187,6 +187,9 @@ Overrides(ts, ov) ==
 \* C08: the token-mutation neighbourhood of a valid token stream - delete / duplicate / substitute / transpose
 SubPool == <<"[", "]", "(", ")", ":", ",", "#", "*", "or", "and", "but not", "from", "with", "define", "relations", "type", "extend", "model", "module",
              "schema", "condition", "{", "}", "x", "1.1", "<", ">", "list", "map", "\"", "'", "\\", "//", "\f", "\t", "0x", "1e", "b\"", "r'", "@">>
+\* characters no lexer rule starts with (outside strings and comments): glued to the END of a lexeme they leave a token stream that
+\* is still a sentence once the lexer has dropped them - the document is not in the language and must be rejected all the same
+Junk == <<"$", ";", "@", "~", "`", "^", "|", "&", "=", "\"">>
 MutateOne(ts, mu) ==
   LET n == Len(ts)
       i == (mu[2] % (n - 1)) + 2                \* never the LEAD pseudo token
@@ -195,6 +198,7 @@ MutateOne(ts, mu) ==
        [] mu[1] = "sub" -> [ts EXCEPT ![i].lex = SubPool[(mu[3] % Len(SubPool)) + 1]]
        [] mu[1] = "swap" -> IF i < n THEN [ts EXCEPT ![i].lex = ts[i + 1].lex, ![i + 1].lex = ts[i].lex] ELSE ts
        [] mu[1] = "cut" -> SubSeq(ts, 1, i)       \* truncation after token i
+       [] mu[1] = "junk" -> [ts EXCEPT ![i].lex = @ \o Junk[(mu[3] % Len(Junk)) + 1]]
 RECURSIVE MutateAll(_, _, _)
 MutateAll(ts, mus, k) == IF k > Len(mus) \/ Len(ts) < 3 THEN ts ELSE MutateAll(MutateOne(ts, mus[k]), mus, k + 1)
 
@@ -202,19 +206,29 @@ StyleOf(s) == [ws |-> s.ws, ows |-> s.ows, eol |-> s.eol, ind |-> s.ind, blank |
 
 Init == ji \in 1..NumJobs /\ job = <<>>
 Load == job = <<>> /\ job' = JobAt(ji) /\ UNCHANGED ji
-Emit == /\ job # <<>> /\ "done" \notin DOMAIN job
-        /\ LET D0 == IF "kw" \in DOMAIN job THEN KwDoc(job.kw[1], job.kw[2]) ELSE DocAt(job.doc)
-               N == Names(job.doc % 3)
-               V == IF job.viol = 0 THEN [viol |-> "", tag |-> <<>>, doc |-> D0] ELSE Violate(D0, job.viol, job.vsite, N)
+\* two steps: the rendering is kept in the state so that it is evaluated once (TLC re-evaluates LET definitions at every
+\* reference from inside a constructor), then printed
+Layout == /\ job # <<>> /\ "R" \notin DOMAIN job
+          /\ LET D0 == IF "kw" \in DOMAIN job THEN KwDoc(job.kw[1], job.kw[2]) ELSE DocAt(job.doc)
+                 N == Names(job.doc % 3)
+                 V == IF job.viol = 0 THEN [viol |-> "", tag |-> <<>>, doc |-> D0] ELSE Violate(D0, job.viol, job.vsite, N)
+                 ts == IF "mut" \in DOMAIN job THEN MutateAll(Tokens(V.doc), job.mut, 1) ELSE Tokens(V.doc)
+             IN job' = [x \in DOMAIN job \cup {"V", "ts", "R"} |->
+                          CASE x = "V" -> V [] x = "ts" -> ts [] x = "R" -> Render(ts, StyleOf(job.style), Overrides(ts, job.ov)) [] OTHER -> job[x]]
+          /\ UNCHANGED ji
+Emit == /\ job # <<>> /\ "R" \in DOMAIN job /\ "done" \notin DOMAIN job
+        /\ LET V == job.V
                D == V.doc
-               ts == IF "mut" \in DOMAIN job THEN MutateAll(Tokens(D), job.mut, 1) ELSE Tokens(D)
-               R == Render(ts, StyleOf(job.style), Overrides(ts, job.ov))
+               ts == job.ts
+               R == job.R
            IN PrintT(ToJson([rec |-> "layout", id |-> job.id, text |-> R.text, valid |-> job.viol = 0 /\ "mut" \notin DOMAIN job, viol |-> V.viol,
+                             \* not a sentence for certain: a violation of the catalogue, or a junk character outside strings and comments
+                             mustreject |-> job.viol # 0 \/ ("mut" \in DOMAIN job /\ Len(job.mut) = 1 /\ job.mut[1][1] = "junk"),
                              modular |-> D.header = "module", m |-> IF job.viol = 0 THEN ModelOf(D) ELSE <<>>,
                              tagged |-> Tagged(ts, R.pos), errtag |-> V.tag, nsites |-> Cardinality(Sites(ts)),
                              \* every lexeme with its position (the lexer's token trace is validated against it)
                              lexemes |-> [i \in 1..Len(ts) |-> <<ts[i].lex, R.pos[i][1], R.pos[i][2]>>]]))
-        /\ job' = [job EXCEPT !.done = TRUE] /\ UNCHANGED ji
-Next == Load \/ Emit
+        /\ job' = [done |-> TRUE, R |-> <<>>] /\ UNCHANGED ji
+Next == Load \/ Layout \/ Emit
 Spec == Init /\ [][Next]_vars
 =============================================================================
